@@ -215,6 +215,40 @@ pub fn c16(tier: Tier) -> i32 {
                 }
             }
         }
+        // the same ledgers spread over four input files (round robin over the lines): the files are read in
+        // command-line order, so every run must print the bytes printed for their concatenation in that order
+        for (name, txs) in &ls {
+            let sc = Scratch::new();
+            sc.all_years_config();
+            let mut parts = vec![String::new(); 4];
+            for (i, t) in txs.iter().enumerate() {
+                parts[i % 4].push_str(&mcx::alpha::dsl_line(t));
+                parts[i % 4].push('\n');
+            }
+            let files = ["p0.cgt", "p1.cgt", "p2.cgt", "p3.cgt"];
+            for (f, p) in files.iter().zip(&parts) {
+                sc.write(f, p.as_bytes());
+            }
+            sc.write("cat.cgt", parts.concat().as_bytes());
+            for (pre, post) in [(vec!["report"], vec![]), (vec!["report"], vec!["--format", "json"]), (vec!["parse"], vec![])] {
+                let mut args: Vec<&str> = pre.clone();
+                args.extend(files.iter());
+                args.extend(post.iter());
+                let mut one: Vec<&str> = pre.clone();
+                one.push("cat.cgt");
+                one.extend(post.iter());
+                let reference = run_tool(&one, &sc, std::time::Duration::from_secs(30)).stdout;
+                let outs: Vec<Vec<u8>> = (0..runs).into_par_iter().map(|_| run_tool(&args, &sc, std::time::Duration::from_secs(30)).stdout).collect();
+                acc.states += runs as u64;
+                acc.validated += runs as u64;
+                acc.bump("cli:repeated-process-runs");
+                acc.bump("cli:repeated-multi-file-runs");
+                if outs.iter().any(|o| o != &reference) || reference.is_empty() {
+                    let distinct: std::collections::BTreeSet<&Vec<u8>> = outs.iter().collect();
+                    acc.violation(&ctx.findings, "C16", Violation { clause: "output-differs-between-processes".into(), input: Input::Ledger(txs.clone()), detail: format!("`cgt-tool {}` printed {} different outputs in {runs} runs, or not the output for the files' concatenation in command-line order", args.join(" "), distinct.len()), context: json!({"profile": name, "files": parts}) });
+                }
+            }
+        }
         // the converter: an export producing every kind of warning several times (unmatched cancels, unknown actions,
         // withholdings without dividend), so that an unsorted map traversal shows as differing warning order
         let mut rows = vec![];
